@@ -62,4 +62,8 @@ def readOkFlat (B : List Inst) (R : RSetAll) : Prop :=
 def readOkZones (Zs : List String) (R : RSetAll) : Prop :=
   Zs.Nodup ∧ (∀ z ∈ Zs, z ∈ zonesOf R.instances) ∧ (zonesOf R.instances).length - R.maxUnavailableZones ≤ Zs.length
 
+/-- a write-type operation: a state it accepts as healthy never extends the replica set
+(`Write`, `WriteNoExtend`, `Reporting`; not `Read`, which accepts and extends on PENDING) -/
+def NonExtending (op : Op) : Prop := ∀ s : State, healthyState op s = true → extendsOn op s = false
+
 end C02
